@@ -53,6 +53,16 @@ func genesisGuards(a *an, tinfos []*pkgInfo) {
 									fact.Guard = a.pos(x.Pos()) + ": if " + a.src(x.Cond) + " { " + a.src(r) + " }"
 								}
 							}
+							// `if <not installed> { store } else { return already-initialized error }`: the two branches
+							// exclude each other, the guard counts from the `if`
+							if eb, ok := x.Else.(*ast.BlockStmt); ok && guardPos == token.NoPos {
+								for _, st := range eb.List {
+									if r, ok := st.(*ast.ReturnStmt); ok && alreadyRe.MatchString(a.src(r)) {
+										guardPos = x.Pos()
+										fact.Guard = a.pos(x.Pos()) + ": if " + a.src(x.Cond) + " { .. } else { " + a.src(r) + " }"
+									}
+								}
+							}
 						}
 					case *ast.CallExpr:
 						name := ""
